@@ -86,11 +86,15 @@ def modelledSites : List (String × String × Bool) := [
   ("parser.BasicParser", "InvalidURLUnit", false),
   ("parser.BasicParser", "InvalidURLUnit", false)]
 
-/-- the sites of the Go source, as (error type, failure flag), are — counted with multiplicity — exactly the sites the model
-    replays. Stated as a permutation: moving a site to another function (helper extraction), or reordering functions,
-    changes nothing; a flipped flag, a new or a removed site does. -/
+/-- the sites of the Go source, as (error type, failure flag), are — as a SET — exactly the sites the model replays:
+    moving a site to another function, merging several equal sites into one helper (harmless patch H25: the three copies of
+    the URL-unit validation became one method) or reordering changes nothing; a flag that no site of that type had, a new
+    (type, flag) pair or a pair that disappears does. (Which of several equal sites runs is decided by the correspondence
+    and the property's oracle, not by this fact.) -/
 theorem C15_sites_classified :
-    (Generated.errorSites.map (fun s => (s.2.1, s.2.2.1))).isPerm (modelledSites.map (fun s => (s.2.1, s.2.2))) = true := by decide +kernel
+    (Generated.errorSites.map (fun s => (s.2.1, s.2.2.1))).all (fun p => (modelledSites.map (fun s => (s.2.1, s.2.2))).contains p) = true ∧
+    (modelledSites.map (fun s => (s.2.1, s.2.2))).all (fun p => (Generated.errorSites.map (fun s => (s.2.1, s.2.2.1))).contains p) = true := by
+  decide +kernel
 
 /-- `handleError` with `failure = true` always hands the error back, whatever the configuration -/
 theorem C15_fatal_always_stops (cfg : Cfg) : stops cfg true = true := by simp [stops]
